@@ -26,7 +26,7 @@ def isas_def(rng, did):
                 tys = [rng.choice(pool) for _ in range(nf)]
             fs = [field(t) for t in tys]
         elif kind == "named":
-            nf = rng.choice([1, 2])
+            nf = rng.choice([0, 1, 1, 2])           # `V {}`: a struct-like variant without fields is not a tuple variant
             names = rng.sample(SC.FIELD_NAMES, nf)
             fs = [field(rng.choice(TRY_TYPES), names[k]) for k in range(nf)]
         else:
@@ -48,6 +48,8 @@ def isas_special(did, k):
         [variant("Z\u00fcrich2", "tuple", [field("u8")]), variant("Caf\u00e92"), variant("M\u00fcnchen10", "named", [field("u8", "x")])],
         [variant("Solo", "tuple", [])],
         [variant("Solo")],
+        [variant("Idle", "named", []), variant("Queued", "tuple", [field("u16")]), variant("Failed", "named", [field("i32", "code")]), variant("Gone", "named", [], dis=True),
+         variant("Done")],
         # explicit discriminants on data-carrying variants (legal with a primitive repr)
         "REPR_U8",
         # more variants than a byte counts; a few carry payloads, a few are disabled
